@@ -14,8 +14,8 @@ RULE = ("case = parameters of one distribution (2D block-cyclic tile/LAPACK stor
         "than P; symmetric/band: more tiles than ranks); distinct = distinct parameter sets")
 
 # defect classes excluded from generation by construction (see corpus/C20/regress); each is replayed and reported
-KNOWN_SKIPS = {"C20_SKIP_VECTOR_ROWCOL": "1", "C20_SKIP_KCYCLIC_DATAKEY": "1", "C20_SKIP_KVIEW_ASSERT": "1",
-               "C20_SKIP_VECTOR_DIAG_GRID": "1", "C20_SKIP_VECTOR_OFFSET_ASSERT": "1"}
+# the k-cyclic data key and the vector offset assertion were repaired in /repo (C20-F1, C20-F2): no longer excluded
+KNOWN_SKIPS = {"C20_SKIP_VECTOR_ROWCOL": "1", "C20_SKIP_KVIEW_ASSERT": "1", "C20_SKIP_VECTOR_DIAG_GRID": "1"}
 
 
 def _build():
@@ -97,7 +97,11 @@ def _regress(res):
         ok, msg = replay(f)
         res.coverage.setdefault("regress_replays", {})[os.path.basename(f)] = "pass" if ok else "fail"
         if not ok:
-            res.violations.append(core.Violation("regression replay %s: %s" % (os.path.basename(f), msg.strip()[-400:]), replay_path=f))
+            kf = [k for k in core.known_for(PROP) if os.path.basename(k.get("replay", "")) == os.path.basename(f)]
+            if kf:
+                res.known.append("%s: %s" % (kf[0]["id"], kf[0]["what"][:300]))
+            else:
+                res.violations.append(core.Violation("regression replay %s: %s" % (os.path.basename(f), msg.strip()[-400:]), replay_path=f))
 
 
 def replay(path):
